@@ -30,6 +30,12 @@ import numpy as np
 from vf import lattice
 from vf.cli import WorkerResult
 
+
+def _gt(a, b):
+    """a > b that is also True when a is NaN (a silent NaN must never pass a tolerance test)."""
+    return ~(np.asarray(a) <= np.asarray(b))
+
+
 LEVEL = "exploration"
 RULE = (
     "product order x coefficient set x manufactured solution x transform x solver/method/boundary "
@@ -174,7 +180,7 @@ def _solve_case(arg):
     for k in range(rows_expected):
         err = np.abs(got[k] - exact[k])
         lim = tol[k] if np.ndim(tol) == 2 else tol
-        if np.any(err > lim):
+        if np.any(_gt(err, lim)):
             i = int(np.argmax(err / lim))
             kind = "solution" if k == 0 else f"derivative-{k}"
             tkind = "transformed" if with_tf else "direct"
